@@ -536,6 +536,15 @@ func sinkZero(t types.Type) Value {
 	if _, ok := t.Underlying().(*types.Interface); ok && !isErrorType(t) {
 		return Iface{T: sinkObjType}
 	}
+	// a sink that returns a pointer to a struct (log.With(...) *MLogger, zap.NewNop() ...)
+	// returns an object, not nil: callers select fields of it
+	if pt, ok := t.Underlying().(*types.Pointer); ok && !isErrorType(t) {
+		if _, isSt := pt.Elem().Underlying().(*types.Struct); isSt {
+			p := new(Value)
+			*p = zero(pt.Elem())
+			return p
+		}
+	}
 	return zero(t)
 }
 
